@@ -335,6 +335,13 @@ func (s *Store[K, V]) GetWithSecodary(key K) (V, bool, error) {
 		if shard.closed {
 			return v, &NotFound{}
 		}
+		// the key may have been set while waiting for the lock, the secondary
+		// cache copy is older than that value and must not overwrite it
+		if entry, ok := shard.get(key); ok {
+			if expire := entry.expire.Load(); expire == 0 || expire > s.timerwheel.clock.NowNano() {
+				return entry.value, nil
+			}
+		}
 		v, cost, expire, ok, err := s.secondaryCache.Get(key)
 		if err != nil {
 			return v, err
@@ -1264,6 +1271,13 @@ func (s *LoadingStore[K, V]) Get(ctx context.Context, key K) (V, error) {
 			defer shard.group.Forget(key)
 			if shard.closed {
 				return Loaded[V]{}, ErrCacheClosed
+			}
+			// the key may have been set while waiting for the lock, the secondary
+			// cache copy is older than that value and must not overwrite it
+			if entry, ok := shard.get(key); ok {
+				if expire := entry.expire.Load(); expire == 0 || expire > s.timerwheel.clock.NowNano() {
+					return Loaded[V]{Value: entry.value}, nil
+				}
 			}
 
 			// first try get from secondary cache
